@@ -12,7 +12,7 @@ import (
 func main() {
 	if len(os.Args) < 3 {
 		fmt.Fprintln(os.Stderr, "usage: check <property> <quick|thorough>")
-		os.Exit(2)
+		os.Exit(3)
 	}
 	prop, tier := os.Args[1], os.Args[2]
 	if r := os.Getenv("VERIF_ROOT"); r != "" {
@@ -21,8 +21,12 @@ func main() {
 	c, ok := checks.Registry[prop]
 	if !ok {
 		fmt.Fprintln(os.Stderr, "unknown property", prop)
-		os.Exit(2)
+		os.Exit(3)
 	}
+	if os.Getenv("VERIF_WORKER") == "" && os.Getenv("VERIF_NO_SUPERVISOR") == "" {
+		os.Exit(ev.Supervise(prop, tier))
+	}
+	ev.InitWorker()
 	run := ev.NewRun(prop, tier)
 	cov := c(run, tier)
 	os.Exit(run.Finish(cov))
